@@ -40,3 +40,11 @@ impl<P> State<P> {
         ensures *final(self) == with_inserted::<P, T>(*old(self), t.target()),
     { unimplemented!() }
 }
+
+// get-after-set for value states ("what was written through an exclusive guard is what every later reader sees",
+// C01/C02 registry contracts): trusted here, used by the loop-count lemma
+pub broadcast proof fn axiom_value_after_write<P, T: ValueState>(s: State<P>, v: T::Target)
+    ensures
+        #[trigger] has_value::<P, T>(with_value::<P, T>(s, v)),
+        value_of::<P, T>(with_value::<P, T>(s, v)) == v,
+{ admit(); }
